@@ -15,6 +15,7 @@
    identity when Put returns (the message fanned out IS the one Put returned, joe.go:252-254), so
    live and replayed copies of a publish carry the same ID by construction of the model - on the
    real code this clause is checked by the monitor (same_id_ok in RunJoeMon.v). *)
+From GoSse Require Fields Queue Replayers Fifo JoeResumeSpec.
 From GoSse Require Import Base JoeLts JoeLocal JoeProj JoePub JoeInv JoeSafety JoeHist JoeDeliver JoeResume.
 Local Open Scope nat_scope.
 
@@ -49,6 +50,27 @@ Proof. exact resume_no_gap_no_dup_run. Qed.
 Theorem C04_nothing_replayed :
   forall ls s i, run init ls = Some s -> sends (s_rlog (sub s i)) = [] -> sends (wlog s i) = due s i.
 Proof. exact resume_nothing_replayed_run. Qed.
+
+(* the replayer hypothesis of C04_no_gap_no_dup is what the C08/C09 specification says: presenting
+   the ID of a buffered event, [Fifo.spec_resume] yields exactly the entries stored after it (nothing
+   when it is the newest), and [Fifo.spec_replay] sends every kept one of them, in Put order, then
+   flushes.  (FiniteReplayer / ValidReplayer refine this specification: C08_refines, C09.) *)
+Theorem C04_spec_resume_is_after :
+  forall l id auto p,
+  Fifo.find_pos l id = Some p ->
+  match Fifo.spec_resume l (Some id) auto with
+  | Some es => es = JoeResumeSpec.after_id id l /\ es <> []
+  | None => JoeResumeSpec.after_id id l = []
+  end.
+Proof. exact JoeResumeSpec.spec_resume_buffered. Qed.
+
+Theorem C04_spec_replay_sends_all_after :
+  forall l keep id auto p,
+  Fifo.find_pos l id = Some p -> JoeResumeSpec.after_id id l <> [] ->
+  Fifo.spec_replay l keep (Some id) auto [] =
+  (map (fun e => Replayers.CSend (Replayers.e_tok e) (Replayers.e_id e)) (filter keep (JoeResumeSpec.after_id id l))
+   ++ [Replayers.CFlush], 0%N).
+Proof. exact JoeResumeSpec.spec_replay_buffered_all. Qed.
 
 (* non-vacuity: two messages are published, subscriber 0 resumes from message 0 while message 2 is
    pending (its Publish has entered, is accepted only after the registration); the replayer replays
